@@ -126,6 +126,8 @@ Cat == [
   I1  |-> Man("index",    {}, {}, {"M1", "M2"}, ""),
   N1  |-> Man("index",    {}, {}, {"I1", "M3"}, ""),          \* nested index
   X1  |-> Man("index",    {}, {}, {"M4", "L3"}, ""),          \* index that lists a layer blob directly
+  U1  |-> Man("image",    {"E1"}, {"M4"}, {}, ""),            \* artifact whose layer IS the manifest of M4
+  U2  |-> Man("artifact", {}, {"I1", "B2"}, {}, ""),          \* artifact whose blob IS the index I1
   A1  |-> Man("image",    {"E1"}, {"B1"}, {}, "M1"),          \* artifact packaged as image manifest + subject
   A2  |-> Man("artifact", {}, {"B1", "B2"}, {}, "M1"),        \* OCI artifact manifest: blobs + subject
   R1  |-> Man("index",    {}, {}, {"A1"}, ""),                \* fall-back referrer indexes of M1
@@ -161,7 +163,8 @@ GcKey(k) == KeyIf(k, Exists)      \* GCLock, GCUnlock, Close: the directory as i
 KeyW(k) == KeyIf(k, TRUE)         \* refMod: always called after a write, the directory exists
 \* "q" is another layout: the target of a copy whose referrers go to this layout
 \* (conf.cp[c].rt, ImageWithReferrerTgt); nothing else about it is modelled
-Keys == UNION {{k, Norm(k), Resolve(k)} : k \in {conf.cp[c].key : c \in Copies} \cup conf.ckeys \cup {conf.okey}}
+Keys == UNION {{k, Norm(k), Resolve(k)} : k \in {conf.cp[c].key : c \in Copies} \cup conf.ckeys \cup {conf.okey}
+                                              \cup ({conf.cp[c].rk : c \in Copies} \ {""})}
         \cup {"q"}
 \* what a copy with a separate referrer target writes into this layout: the referrers of M1, their
 \* config and blobs, and the fall-back index; the image itself goes to "q"
@@ -169,13 +172,18 @@ HereNodes == {"A1", "A2", "E1", "B1", "B2", "R0", "R1", "R2", "R12"}
 
 -----------------------------------------------------------------------------
 (* Statement level reachability and the code's mark phase.                  *)
-RECURSIVE Closure(_, _, _)
-Closure(f, todo, seen) ==
+(* A digest is read as a manifest only where it is listed as one (index entry, entry of a nested    *)
+(* index); named as config / layer / blob it is a leaf, even when the file happens to be a manifest *)
+(* (U1, U2).                                                                                        *)
+RECURSIVE ClosureM(_, _, _)
+ClosureM(f, todo, seen) ==      \* the digests reached in the role of a manifest
   IF todo = {} THEN seen
   ELSE LET n == CHOOSE x \in todo : TRUE
-           kids == IF n \in f /\ IsMan(n) THEN Kids(n) ELSE {}
-       IN Closure(f, (todo \cup kids) \ (seen \cup {n}), seen \cup {n})
-Reach(f, i) == Closure(f, {e[2] : e \in i}, {})
+           kids == IF n \in f /\ IsMan(n) THEN Cat[n].sub ELSE {}
+       IN ClosureM(f, (todo \cup kids) \ (seen \cup {n}), seen \cup {n})
+Closure(f, roots) == LET M == ClosureM(f, roots, {})
+                     IN M \cup UNION {Cat[n].cfg \cup Cat[n].lay : n \in {m \in M : m \in f /\ IsMan(m)}}
+Reach(f, i) == Closure(f, {e[2] : e \in i})
 
 RECURSIVE MarkMan(_, _)
 MarkMan(f, n) ==      \* closeProcManifest on the loaded manifest n
@@ -225,13 +233,17 @@ ManPut(f, i, n, t, child) ==
 CP(c) == conf.cp[c]
 Here(c, n) == ~CP(c).rt \/ n \in HereNodes
 \* ImageCopy: GCLock(refTgt), and of the referrer target when it is a separate one
+\* (rk # "": ImageWithReferrerTgt names this very layout, spelled rk: it is locked a second time and
+\* unlocked a second time, the count is per lock not per copy)
 LockAll(m, c) == IF CP(c).rt THEN (IF LockRefTgt THEN GCLock(GCLock(m, "q"), GcKey(CP(c).key)) ELSE GCLock(m, "q"))
+                 ELSE IF CP(c).rk # "" /\ LockRefTgt THEN GCLock(GCLock(m, GcKey(CP(c).key)), GcKey(CP(c).rk))
                  ELSE GCLock(m, GcKey(CP(c).key))
 UnlockAll(m, c) == IF CP(c).rt THEN (IF LockRefTgt THEN GCUnlock(GCUnlock(m, "q"), GcKey(CP(c).key)) ELSE GCUnlock(m, "q"))
+                   ELSE IF CP(c).rk # "" /\ LockRefTgt THEN GCUnlock(GCUnlock(m, GcKey(CP(c).key)), GcKey(CP(c).rk))
                    ELSE GCUnlock(m, GcKey(CP(c).key))
 InProg(c) == cst[c] \in {"run", "fail"}          \* between GCLock and GCUnlock
 Sel(c, n) == (Cat[n].sub \cap Mans) \ CP(c).skip   \* child manifests kept by ImageWithPlatforms
-PreFiles == Closure(Nodes, {p[1] : p \in conf.pre}, {})
+PreFiles == Closure(Nodes, {p[1] : p \in conf.pre})
 
 Init ==
   /\ conf \in Confs
@@ -285,18 +297,22 @@ CopyHeadSame(c) ==
   LET n == CP(c).root IN
   /\ cst[c] = "run" /\ n \in act[c] /\ n \in need[c] /\ n \notin got[c] /\ SameAsTarget(c)
   /\ act' = [act EXCEPT ![c] = @ \ {n}]
+  /\ need' = [need EXCEPT ![c] = @ \ {n}]
   /\ fin' = [fin EXCEPT ![c] = @ \cup {n}]
-  /\ UNCHANGED <<conf, files, idx, hasidx, modRefs, cst, need, hit, got, tmpf, rl, closes, ops>>
+  /\ UNCHANGED <<conf, files, idx, hasidx, modRefs, cst, hit, got, tmpf, rl, closes, ops>>
 
 CopyFetch(c, n) ==
   /\ cst[c] = "run" /\ n \in act[c] /\ n \in need[c] /\ n \notin got[c]
   /\ n = CP(c).root => ~SameAsTarget(c)
   /\ got' = [got EXCEPT ![c] = @ \cup {n}]
+  /\ need' = [need EXCEPT ![c] = @ \ {n}]
   /\ act' = [act EXCEPT ![c] = @ \cup (Sel(c, n) \ fin[c])]
-  /\ UNCHANGED <<conf, files, idx, hasidx, modRefs, cst, need, hit, tmpf, fin, rl, closes, ops>>
+  /\ UNCHANGED <<conf, files, idx, hasidx, modRefs, cst, hit, tmpf, fin, rl, closes, ops>>
 
 \* BlobHead on the layout when the blob's goroutine starts; the GET may wait a long time after it
 BlobWanted(c, b) == \E n \in act[c] \cap got[c] : b \in Blb(n)
+\* b waits for its source GET as a blob (a manifest can be the layer of an artifact: U1, U2)
+BlobNeed(c, b) == b \in need[c] /\ b \notin act[c]
 CopyBlobCheck(c, b) ==
   /\ cst[c] = "run" /\ BlobWanted(c, b) /\ b \notin fin[c] /\ b \notin tmpf[c] /\ b \notin need[c]
   /\ IF Here(c, b) /\ b \in files
@@ -305,7 +321,7 @@ CopyBlobCheck(c, b) ==
   /\ UNCHANGED <<conf, files, idx, hasidx, modRefs, cst, act, hit, got, tmpf, rl, closes, ops>>
 
 CopyBlobStart(c, b) ==
-  /\ cst[c] = "run" /\ b \in need[c] /\ b \notin Mans
+  /\ cst[c] = "run" /\ BlobNeed(c, b)
   /\ need' = [need EXCEPT ![c] = @ \ {b}]
   /\ IF Here(c, b)
      THEN /\ tmpf' = [tmpf EXCEPT ![c] = @ \cup {b}]
@@ -359,7 +375,7 @@ CopyEnd(c) ==
 \* a request to the source fails (counted as one of the MaxOps other events): the error is
 \* returned once the running puts have finished (CopyFailDrain)
 SrcPending(c) == \E n \in act[c] : (n \in need[c] /\ n \notin got[c]) \/ (CP(c).refs /\ n \in got[c] /\ n \notin rl[c])
-                 \/ \E b \in need[c] : b \notin Mans
+                 \/ \E b \in need[c] : BlobNeed(c, b)
 CopyAbort(c) ==
   /\ cst[c] = "run" /\ conf.faults /\ ops < MaxOps /\ SrcPending(c)
   /\ ops' = ops + 1
@@ -485,6 +501,7 @@ LocksNonNeg == \A k \in Keys : modRefs[k].locks >= 0
 \* entry is never deleted (by Close, or by anything else) while it carries a positive count
 Holders(k) == Cardinality({c \in Copies : InProg(c) /\ GcKey(CP(c).key) = k /\ (~CP(c).rt \/ LockRefTgt)})
               + Cardinality({c \in Copies : InProg(c) /\ CP(c).rt /\ k = "q"})
+              + Cardinality({c \in Copies : InProg(c) /\ ~CP(c).rt /\ CP(c).rk # "" /\ LockRefTgt /\ GcKey(CP(c).rk) = k})
 LocksExact == \A k \in Keys : IF modRefs[k].ex THEN modRefs[k].locks = Holders(k) ELSE Holders(k) = 0
 \* the mark phase finds exactly what the index reaches (lemma behind O1 and O2)
 MarkIsReach == MarkAll(files, idx) \cap files = Reach(files, idx) \cap files
@@ -506,5 +523,5 @@ OnlyCloseDeletes == [][(files \ files') # {} => (CloseStep \/ ops' = ops + 1 \/ 
 \* a copy that returns nil was never collected under: everything it handled that the index still
 \* reaches is present (no deletes in these configurations)
 CopyKeeps == \A c \in Copies : (cst[c] = "ok" /\ MaxOps = 0 /\ ~CP(c).rt) =>
-               (Closure(Nodes, {CP(c).root}, {}) \cap Reach(files, idx) \cap fin[c]) \subseteq files
+               (Closure(Nodes, {CP(c).root}) \cap Reach(files, idx) \cap fin[c]) \subseteq files
 =============================================================================
